@@ -159,6 +159,13 @@ def task(W, payload):
         want_idx = [ref + datetime.timedelta(days=t) for t in want_times]
         if [x.to_pydatetime() for x in idx] != want_idx:
             fail(out, "frame dates are not reference date plus numeric time in days", "c12", payload, got=[str(x) for x in idx][:3], want=[str(x) for x in want_idx][:3])
+        # the same grid given as NUMBERS (start time not necessarily 0) with the same reference date: the same labels
+        mn = CompartmentalModel((ts, te), ["A", "B"], ["A"], timestep=float(dt), ref_date=ref)
+        out["evals"] += 1
+        idxn = mn._get_ref_idx()
+        if [x.to_pydatetime() for x in idxn] != want_idx:
+            fail(out, "frame dates of a model given numeric times and a reference date are not reference date plus numeric time in days", "c12", payload,
+                 got=[str(x) for x in idxn][:3], want=[str(x) for x in want_idx][:3], t0=ts)
         for t in want_times:
             if ep.datetime_to_number(ep.number_to_datetime(t)) != t:
                 fail(out, "Epoch round trip number -> datetime -> number changes the value", "c12", payload, t=t)
